@@ -194,7 +194,8 @@ package keeper
 //@   ensures req != nil && hasMinter($minterParams, $minterState.SequenceId) ==> err == nil && resp != nil && !resp.Inflation.IsNil()
 //@     && resp.Inflation == infl(cur($minterParams, $minterState.SequenceId), startOf($minterParams, $minterState.SequenceId), $blockTime, $supply[$minterParams.MintDenom])
 //@   ensures req == nil || !hasMinter($minterParams, $minterState.SequenceId) ==> err != nil
-//@   prop C19 C20x
+//@   panic_requires saneMinters($minterParams.Minters)
+//@   prop C19 C20
 //@
 //@ // ---- C13: only governance changes the parameters; what is stored was validated and contains the current period ----
 //@ spec func mpKey() str = global("types.ParamsKey")
@@ -245,7 +246,7 @@ package keeper
 //@ func (k Keeper) Params(c, req) (r0, r1)
 //@   prop C20
 //@ func (k Keeper) State(goCtx, req) (r0, r1)
-//@   prop C20x
+//@   prop C20
 
 //@ // ---- declared effects (checked per call instruction by the effect checker; anything not listed is effect-free) ----
 //@ effects Keeper.Mint bank.mint bank.send
